@@ -711,5 +711,27 @@ func (g *Gen) Twins() []*Q {
 			}
 		}
 	}
+	// nested compatible operators: a union of sources with different columns
+	// fixes the missing column to (value, ""), i.e. a fixed value LIST that
+	// contains the empty string - what the disjointness proofs must look at as a
+	// whole (added after a seeded change that only looked at the first value)
+	var nested []*Q
+	for _, t := range []string{"t1", "t4"} {
+		src := Table(t)
+		nested = append(nested,
+			Binary("union", Extend(src, []string{"x"}, []*E{Con(vi(1))}), src),
+			Binary("union", src, Extend(src, []string{"x"}, []*E{Con(vi(1))})),
+			Where(Binary("union", Extend(src, []string{"x"}, []*E{Con(vi(1))}), src), In(Col("x"), vi(1), vs(""))),
+			Where(src, In(Col("b"), vs("x"), vs(""))))
+	}
+	for _, x := range nested {
+		for _, t := range []string{"t1", "t4"} {
+			for _, y := range []*Q{Table(t), Extend(Table(t), []string{"x"}, []*E{Con(vi(1))}),
+				Extend(Table(t), []string{"x"}, []*E{Con(vs(""))})} {
+				out = append(out, g.Binaries(x, y)...)
+				out = append(out, g.Binaries(y, x)...)
+			}
+		}
+	}
 	return out
 }
